@@ -67,19 +67,12 @@ func RunSet(id string, opts GlobalOptions) error {
 			return err
 		}
 		agentID := opts.AgentID
-		if err := applySetUpdates(dir, opts, id, updates, agentID, opts.JSON); err != nil {
+		task, _, err := applySetUpdates(dir, opts, id, updates, agentID, opts.JSON)
+		if err != nil {
 			return err
 		}
 
 		if opts.JSON {
-			graph, err := loadGraph(dir)
-			if err != nil {
-				return err
-			}
-			task := graph.Tasks[id]
-			if task == nil {
-				return fmt.Errorf("unknown task id %s", id)
-			}
 			return writeJSON(os.Stdout, setOutput{
 				Kind:          "set",
 				ID:            id,
@@ -136,19 +129,12 @@ func RunSet(id string, opts GlobalOptions) error {
 			return err
 		}
 		agentID := opts.AgentID
-		if err := applySetUpdates(dir, opts, id, updates, agentID, opts.JSON); err != nil {
+		task, _, err := applySetUpdates(dir, opts, id, updates, agentID, opts.JSON)
+		if err != nil {
 			return err
 		}
 
 		if opts.JSON {
-			graph, err := loadGraph(dir)
-			if err != nil {
-				return err
-			}
-			task := graph.Tasks[id]
-			if task == nil {
-				return fmt.Errorf("unknown task id %s", id)
-			}
 			return writeJSON(os.Stdout, setOutput{
 				Kind:          "set",
 				ID:            id,
@@ -192,19 +178,12 @@ func RunSet(id string, opts GlobalOptions) error {
 	}
 
 	agentID := opts.AgentID
-	if err := applySetUpdates(dir, opts, id, updates, agentID, opts.JSON); err != nil {
+	task, _, err := applySetUpdates(dir, opts, id, updates, agentID, opts.JSON)
+	if err != nil {
 		return err
 	}
 
 	if opts.JSON {
-		graph, err := loadGraph(dir)
-		if err != nil {
-			return err
-		}
-		task := graph.Tasks[id]
-		if task == nil {
-			return fmt.Errorf("unknown task id %s", id)
-		}
 		return writeJSON(os.Stdout, setOutput{
 			Kind:          "set",
 			ID:            id,
@@ -236,21 +215,13 @@ func RunClaim(id string, opts GlobalOptions) error {
 	if err != nil {
 		return err
 	}
-	if err := applySetUpdates(dir, opts, id, updates, agentID, true); err != nil {
-		return err
-	}
-
-	graph, err := loadGraph(dir)
+	task, meta, err := applySetUpdates(dir, opts, id, updates, agentID, true)
 	if err != nil {
 		return err
 	}
-	task := graph.Tasks[id]
-	if task == nil {
-		return errors.New("internal error: missing claimed task")
-	}
 
 	if opts.JSON {
-		claimedAt := claimedAtForTask(task, graph.Meta[id])
+		claimedAt := claimedAtForTask(task, meta)
 		return writeJSON(os.Stdout, map[string]interface{}{
 			"id":         task.ID,
 			"epic":       task.EpicID,
@@ -395,7 +366,10 @@ func buildUpdatedFields(input *TaskInput) []string {
 	return fields
 }
 
-func applySetUpdates(dir string, opts GlobalOptions, id string, updates map[string]string, agentID string, quiet bool) error {
+// applySetUpdates applies a set request under the lock and returns the task as
+// it stands right after the update (read back before the lock is released, so
+// the caller's reply cannot be invalidated by a concurrent writer).
+func applySetUpdates(dir string, opts GlobalOptions, id string, updates map[string]string, agentID string, quiet bool) (*Task, *TaskMeta, error) {
 	lockPath := filepath.Join(dir, "lock")
 	eventsPath := getEventsPath(dir)
 	repoDir := filepath.Dir(dir)
@@ -404,14 +378,16 @@ func applySetUpdates(dir string, opts GlobalOptions, id string, updates map[stri
 	_, hasSummary := updates["result.summary"]
 	if hasPath || hasSummary {
 		if !hasPath {
-			return errors.New("result.summary requires result.path=")
+			return nil, nil, errors.New("result.summary requires result.path=")
 		}
 		if !hasSummary {
-			return errors.New("result.path requires result.summary=")
+			return nil, nil, errors.New("result.path requires result.summary=")
 		}
 	}
 
-	return withLock(lockPath, syscall.LOCK_EX, func() error {
+	var updated *Task
+	var updatedMeta *TaskMeta
+	err := withLock(lockPath, syscall.LOCK_EX, func() error {
 		verifPoint("section", "ApplySet", id)
 		graph, err := loadGraph(dir)
 		if err != nil {
@@ -435,11 +411,24 @@ func applySetUpdates(dir string, opts GlobalOptions, id string, updates map[stri
 		if err := appendEvents(eventsPath, events); err != nil {
 			return err
 		}
+		after, err := loadGraph(dir)
+		if err != nil {
+			return err
+		}
+		updated = after.Tasks[id]
+		updatedMeta = after.Meta[id]
+		if updated == nil {
+			return fmt.Errorf("unknown task id %s", id)
+		}
 		if !quiet {
 			fmt.Println(id)
 		}
 		return nil
 	})
+	if err != nil {
+		return nil, nil, err
+	}
+	return updated, updatedMeta, nil
 }
 
 // buildUpdateEvents validates a whole set request (result attachment and field
